@@ -251,6 +251,7 @@ def _worker(args):
     prop_id, modname, tier, seed, shard_no, spec = args
     t0 = time.time()
     try:
+        sys.stdout = open(os.devnull, "w")     # code under test print()s diagnostics; results travel through the return value
         from vf import boot
         boot.install()
         mod = importlib.import_module(modname)
